@@ -356,8 +356,14 @@ def run_blocks(ctx, i):
         return [aa.reg.Constant(coefficient=logu(r, 0.05, 20)), aa.reg.ConstantZeroth(coefficient_neighbor=logu(r, 0.05, 20), coefficient_zeroth=logu(r, 0.05, 20)),
                 aa.reg.Zeroth(coefficient=logu(r, 0.05, 20))][int(r.integers(3))]
 
-    objs, desc = gen_aa.linear_objects(aa, rng, case, nobj=int(rng.integers(2, 4)), allow_unregularized=True, reg_factory=regf)
-    W = dict(objects=desc)
+    shared = regf(rng) if i % 3 == 0 else None
+    # every 3rd case: ONE regularization instance shared by all regularized mappers (a linked model component); each block is
+    # still that scheme's matrix for the block's own mesh
+    objs, desc = gen_aa.linear_objects(aa, rng, case, nobj=int(rng.integers(2, 4)), allow_unregularized=True,
+                                       reg_factory=(lambda r: shared) if shared is not None else regf)
+    W = dict(objects=desc, shared_regularization_instance=shared is not None)
+    if shared is not None:
+        ctx.classes["blocks:one_regularization_instance_shared_by_the_mappers"] += 1
     sizes = [int(o.params) for o in objs]
     offs = np.concatenate([[0], np.cumsum(sizes)])
     own = [None if o.regularization is None else _np(o.regularization.regularization_matrix_from(linear_obj=o)).astype(float) for o in objs]
